@@ -15,13 +15,16 @@ symbolic; the outcome of a path is either a normal return or the exception class
  L6  BoundaryFace with non-array coefficients -> TypeError
  L7  solvePDE: tuple / matrix / vector terms accepted; objects that are no equation term -> TypeError
  L8  every public dispatcher has a branch for each of the 9 grid classes
+ L8f [sibling rule] every branch of a pure dispatcher forwards the same argument list (a dropped optional argument is a
+     request silently ignored for that grid class)
  L9  "valid requests never fail": both constructor forms, the CellVariable constructor and every public builder are
      interpreted on meshes with one and with two cells per axis (concrete sizes) and must not raise
 """
 from __future__ import annotations
 import itertools
+import ast
 from ..alg import Rat, is_zero
-from ..srcmodel import SourceModel, AnalysisError, MESH_CLASSES, dispatch_table
+from ..srcmodel import SourceModel, AnalysisError, MESH_CLASSES, dispatch_table, branch_callee
 from ..arrays import AbstractRaise, R, ZERO, ONE, snap, Box, Arr, const_arr
 from ..model import World, AX, DIM, RADIAL, atom_array, FACES
 from ..interp import ASparse, AObj, OpaqueFn
@@ -31,7 +34,7 @@ from .c10 import LABELS, ALL_LABELS
 PROP = 'C16'
 RULES = {'L1': 'CellProp labels', 'L2': 'FaceVariable component labels (get and set)', 'L3': 'radial periodic -> ValueError',
          'L4': 'initial value shapes', 'L5': 'constructor arity', 'L6': 'BoundaryFace coefficient types', 'L7': 'solvePDE term kinds',
-         'L8': 'dispatcher coverage', 'L9': 'documented forms and every public builder accepted on meshes with 1 and 2 cells per axis'}
+         'L8': 'dispatcher coverage', 'L8f': 'dispatcher branches forward identical arguments', 'L9': 'documented forms and every public builder accepted on meshes with 1 and 2 cells per axis'}
 ASSUMPTIONS = ['documented exception types: AttributeError (labels), ValueError (radial periodic, shapes), TypeError (arity, coefficient and term types) - from the docstrings, docs/user_guide and the property statement',
                '"accepted for every N >= 1" is decided for symbolic N (all N >= 14) and the concrete sizes used by L4']
 
@@ -67,6 +70,8 @@ def jobs(tier):
         d = DIM[c]
         for n in (1, 2):
             out.append(('small', c, tier, (n,) * d))
+        if d > 1:
+            out.append(('small', c, tier, ((1, 2), (2, 1, 2))[d - 2]))       # one cell along some, not all, axes
     return out
 
 
@@ -155,7 +160,8 @@ def job(args):
         fi = ci.methods['__init__']
         units.add('cell.CellVariable.__init__')
         good = [tuple(sizes), tuple(s + 2 for s in sizes)]
-        bad = [tuple(s + 1 for s in sizes), tuple(s + 3 for s in sizes), tuple(sizes) + (2,), (sizes[0] + 7,)]
+        bad = [tuple(s + 1 for s in sizes), tuple(s + 3 for s in sizes), tuple(sizes) + (2,), (sizes[0] + 7,),
+               tuple(sizes) + (1,), (1,) + tuple(sizes), tuple(s + 2 for s in sizes) + (1,)]      # singleton axes are a different shape
         if d >= 2:
             bad.append(tuple(reversed(sizes)))
             bad.append(tuple(sizes[:-1]))
@@ -207,6 +213,13 @@ def job(args):
             bc = w.boundary_conditions()
             phi = w.cell_variable('phi', bc)
             u = w.face_variable('u')
+            # the two documented array forms of the initial value (interior shape, interior+ghost shape)
+            for shp, nm in ((tuple(w.N), 'interior-shaped'), (tuple(w.full_shape()), 'ghost-including')):
+                try:
+                    w.interp.instantiate('CellVariable', [w.mesh, Box(atom_array(('v',), shp))])
+                    ob('L9', 'cell.CellVariable.__init__/small-grid', True, f"{nm} array accepted on a mesh with N={sizes}", ci.loc())
+                except AbstractRaise as e:
+                    ob('L9', 'cell.CellVariable.__init__/small-grid', False, f"{nm} array of shape {tuple(map(str, shp))} raises {e.exc}: {e.msg} on a mesh with N={sizes}", ci.loc())
             calls = [('cell', None, 'CellVariable(mesh, scalar)'), ('diffusion', 'diffusionTerm', (u,)), ('advection', 'convectionTerm', (u,)),
                      ('advection', 'convectionUpwindTerm', (u,)), ('advection', 'convectionTVDupwindRHSTerm', (u, phi, OpaqueFn('FL'))),
                      ('calculus', 'divergenceTerm', (u,)), ('calculus', 'gradientTerm', (phi,)), ('averaging', 'linearMean', (phi,)),
@@ -279,6 +292,26 @@ def global_rules(sm, rep, tier):
             body, line = tab[c]
             covered = bool(body) and not all(isinstance(st, ast.Raise) for st in body)
             rep.ob('L8', f"{module}.{disp}", covered, f"{c}: " + ('branch at line %s' % line if covered else 'no branch (falls through / raises)'), fi.loc())
+        # L8f (sibling rule): a dispatcher whose branches are plain calls hands every implementation the same argument
+        # list; an argument dropped for one grid class is a request silently ignored there
+        sigs = {}
+        for c in MESH_CLASSES:
+            body, line = tab[c]
+            try:
+                callee, call, proj = branch_callee(body)
+            except Exception:
+                call = None
+            if call is None:
+                continue
+            sig = ', '.join(ast.unparse(a_) for a_ in call.args) + ''.join(f", {k.arg}={ast.unparse(k.value)}" for k in call.keywords)
+            sigs.setdefault(sig, []).append((c, line))
+        if sigs and sum(len(v) for v in sigs.values()) == len(MESH_CLASSES):
+            major = max(sigs, key=lambda k: len(sigs[k]))
+            if len(sigs[major]) >= 7:            # a pure dispatcher (today: all nine branches identical)
+                for sig, lst in sigs.items():
+                    for c, line in lst:
+                        rep.ob('L8f', f"{module}.{disp}/argument-forwarding", sig == major,
+                               f"{c}: branch at line {line} passes ({sig})" + ('' if sig == major else f" while the other branches pass ({major})"), fi.loc())
 
 
 def finalize(sm, rep, tier, results):
@@ -286,4 +319,5 @@ def finalize(sm, rep, tier, results):
     rep.floor('arity obligations', sum(1 for o in rep.obs if o['rule'] == 'L5'), 9 * 8)
     rep.floor('radial-periodic valuations', sum(1 for o in rep.obs if o['rule'] == 'L3' and 'radial-periodic' in o['construct']), 18)
     rep.floor('dispatcher branches', sum(1 for o in rep.obs if o['rule'] == 'L8'), 72)
+    rep.floor('pure-dispatcher branches with compared argument lists', sum(1 for o in rep.obs if o['rule'] == 'L8f'), 54)
     rep.samples.append(dict(rule='L2', example='FaceVariable.rvalue setter on Grid2D must raise AttributeError and leave _xvalue untouched'))
